@@ -90,6 +90,19 @@ func init() {
 		},
 	})
 	register(&propertyDef{
+		id: "C05",
+		explain: "Decides structural necessary conditions of event framing only (delivery equality itself is numeric and not decided): (EVENT-SIZE-SOURCE) the size header of an event is computed from the per-event byte counter and every payload appended to the buffer is counted in it; (EVENT-BOUNDARY) once an event is published in the buffer the per-event state (byte counter, event id, counters) advances on every path, also when the implicit flush fails; " +
+			"(TAIL-OFFSET) the tail offset a flush persists is the recorded start of the unfinished event, so a reopened writer appends directly behind the last complete event; (POSITION-COHERENT) the reader derives its position from one page; (READ-CONSUME) the reader takes what the cursor consumed off the remaining event size before the next step. " +
+			"Not decided: page spill arithmetic of buffer/cursor, header/offset values being the right numbers, chunking-independence as a whole.",
+		run: func(p *Program, rep *Report, tier string) {
+			g(rep, "EVENT-SIZE-SOURCE", func() { ruleEVENTSIZESOURCE(p, rep) })
+			g(rep, "EVENT-BOUNDARY", func() { ruleEVENTBOUNDARY(p, rep) })
+			g(rep, "TAIL-OFFSET", func() { ruleTAILOFFSET(p, rep) })
+			g(rep, "POSITION-COHERENT", func() { rulePOSITIONCOHERENT(p, rep) })
+			g(rep, "READ-CONSUME", func() { ruleREADCONSUME(p, rep) })
+		},
+	})
+	register(&propertyDef{
 		id: "C06",
 		explain: "Decides the transaction protocol of the queue: (PQTX) a flush and an ACK are each exactly one write transaction, file mutations only inside it, in-memory advance and callbacks only after Commit()==nil; " +
 			"(KEEPWRITEPAGE) the last page is never put on the ACK free plan; (TX-PAIRING) every transaction begun by pq is finished on every exit; (ERRDISC) no txfile error is dropped in pq; " +
